@@ -369,7 +369,7 @@ def _compile(g):
 
 def main(tier):
     run = check.Run(PID, tier)
-    check.JOB_BUDGET[0] = 240 if tier == "quick" else 3000
+    check.JOB_BUDGET[0] = 240 if tier == "quick" else 1500
     B = G.BASIC
     check.run_jobs([(_compile_rel, ())] + [(_compile, (B[n],)) for n in ("SE3", "SE_1_3", "SE_2_3", "Galilei")])
     ops = ["compose", "inverse", "exp", "log", "Ad", "ad", "hat", "dr_exp", "dr_expinv"]
